@@ -133,7 +133,7 @@ def file_facts(fs, gctx, path, deep=True):
     idx = iface_index(fs)
     f = [x for x in fs["files"] if x["path"] == path][0]
     facts = {"float_const": False, "float_int_literal": False, "deep_chain": False, "untyped_objarr": False, "nested_obj_path": False,
-             "obj_struct_param": False, "objarr": False, "has_iface": False, "struct_param": False, "optional": False}
+             "obj_struct_param": False, "objarr": False, "has_iface": False, "struct_param": False, "optional": False, "forward_ref": False}
     def nested_obj(t, depth=0):
         s = gctx.structs.get(t)
         if not s:
@@ -169,12 +169,20 @@ def file_facts(fs, gctx, path, deep=True):
                             facts["obj_struct_param"] = True
                         if nested_obj(t):
                             facts["nested_obj_path"] = True
+    facts["forward_ref"] = gen.has_forward_ref(fs, path)
     return facts
 
 
 # (class, languages, predicate on facts (+ untyped flag), pattern on the diagnostic line)
 # (the C++ class for untyped object arrays is gone since its repair: such arrays are ProxyBase arrays)
 CLASSES = [
+    # the C++ header defines each proxy class completely before the next interface: a method that names an
+    # interface declared further down in the same file meets an undeclared or incomplete type.  The core symptom
+    # (an interface name that is unknown where it is used) must be present; the errors a C++ compiler derives
+    # from it in the same translation unit (parameters taken for int, overloads that hide, ...) are its cascade.
+    ("K_cpp_forward_iface_ref", ("cpp",), lambda F, u: F["forward_ref"],
+     r"'I\w+' (has not been declared|was not declared|does not name a type)|unknown type name 'I\w+'|declaration of 'I\w+' with no type|"
+     r"incomplete type 'I\w+'|undeclared identifier 'I\w+'", "cascade"),
 ]
 
 
@@ -183,12 +191,17 @@ def attribute(lang, facts, untyped, lines):
     hit, rest = set(), []
     for l in lines:
         ok = False
-        for cls, langs, pred, pat in CLASSES:
+        for cls, langs, pred, pat, *mode in CLASSES:
             if lang in langs and pred(facts, untyped) and re.search(pat, l):
                 hit.add(cls); ok = True
                 break
         if not ok:
             rest.append(l)
+    # a class marked "cascade" explains the follow-up errors of the same translation unit once its
+    # core symptom has been seen there
+    for cls, langs, pred, pat, *mode in CLASSES:
+        if mode and mode[0] == "cascade" and cls in hit:
+            rest = []
     return hit, rest
 
 
@@ -438,6 +451,12 @@ def witness_cases():
     W.append(("K_nested_obj_path", ("cpp",), fs1([("struct", "SO", [("interface", 1, "o"), ("uint64", 1, "a"), ("uint64", 1, "b")]),
                                                    ("struct", "SN", [("SO", 1, "x"), ("uint64", 1, "y"), ("uint64", 1, "z")]),
                                                    ("iface", "IW", None, [("method", "m", [("in", "SN", None, "p0"), ("out", "SN", None, "p1")], False, None)])])))
+    W.append(("K_cpp_forward_iface_ref", ("cpp",), fs1([("iface", "IHub", None, [("method", "open", [("out", "ILater", None, "p0")], False, None)]),
+                                                        ("iface", "ILater", None, [("method", "close", [], False, None)])])))
+    W.append(("REGRESSION_c_forward_iface_ref", ("c",), fs1([("struct", "SH", [("ILater", 1, "l"), ("uint64", 1, "a"), ("uint64", 1, "b")]),
+                                                             ("iface", "IHub", None, [("method", "open", [("out", "ILater", None, "p0"), ("in", "SH", None, "p1")], False, None),
+                                                                                      ("method", "arr", [("in", "ILater", "[2]", "p0")], False, None)]),
+                                                             ("iface", "ILater", None, [("method", "close", [], False, None)])])))
     W.append(("K_small_obj_struct_bundled", ("c", "rust"), fs1([("struct", "SS", [("interface", 1, "o")]),
                                                                ("iface", "IW", None, [("method", "m", [("in", "SS", None, "p0"), ("in", "uint32", None, "p1")], False, None)])])))
     W.append(("K_java_iface_named_after_file", ("java",), fs1([("iface", "IWit", None, [("method", "m", [("in", "uint32", None, "p0")], False, None)])], path="IWit.idl")))
@@ -491,6 +510,9 @@ def run(ctx_):
         fs, gctx = gen.gen_fileset(rng, nfiles=rng.choice([1, 2, 3]))
         safe_consts(rng, fs)
         make_clean(rng, fs, gctx)
+        if k % 2 == 1:
+            # interfaces named before the same file declares them
+            gen.add_forward_refs(rng, fs, prob=0.6)
         jobs.append(("clean", fs, gctx, False, {}))
         if k % 3 == 0:
             jobs.append(("clean-untyped", fs, gctx, True, {}))
